@@ -11,7 +11,6 @@ import equinox as eqx
 import jax.numpy as jnp
 import jax.random as jr
 from jax import nn
-from jax.numpy.linalg import norm
 from jaxtyping import Array, Float, PRNGKeyArray
 
 from flowjax.bijections.bijection import AbstractBijection
@@ -154,7 +153,9 @@ class _UnconditionalPlanar(AbstractBijection):
         """
         wtu = self._act_scale @ self.weight
         m_wtu = -1 + jnp.log(1 + nn.softplus(wtu))
-        return self._act_scale + (m_wtu - wtu) * self.weight / norm(self.weight) ** 2
+        w_norm_sq = jnp.sum(self.weight**2)
+        w_norm_sq = jnp.where(w_norm_sq == 0, 1, w_norm_sq)  # Avoid nan if weight is zero
+        return self._act_scale + (m_wtu - wtu) * self.weight / w_norm_sq
 
     def inverse(self, y, condition=None):
         if self.activation != "leaky_relu":
